@@ -49,6 +49,17 @@ class _Timeout(BaseException):
     pass
 
 
+class _PathTimeout(BaseException):
+    pass
+
+
+PATH_TIMEOUT_S = 600  # wall-clock cap for ONE path (native code that never returns would otherwise hang the check)
+
+
+def _on_alarm(signum, frame):
+    raise _PathTimeout()
+
+
 ST: "_State | None" = None  # current path state (symbolic runs only)
 
 QUERY_TIMEOUT_MS = 60000
@@ -619,7 +630,28 @@ class Replayer:
 
 
 def replay(fn, values):
-    """returns ('violation', Violation) | ('ok', None) | ('infeasible', None) | ('crash', exc)"""
+    """returns ('violation', Violation) | ('ok', None) | ('infeasible', None) | ('crash', exc) | ('timeout', None)"""
+    import signal
+    import threading
+
+    alarm = False
+    try:
+        if threading.current_thread() is threading.main_thread():
+            signal.signal(signal.SIGALRM, _on_alarm)
+            signal.setitimer(signal.ITIMER_REAL, PATH_TIMEOUT_S)
+            alarm = True
+    except Exception:  # noqa
+        alarm = False
+    try:
+        return _replay(fn, values)
+    except _PathTimeout:
+        return "timeout", None
+    finally:
+        if alarm:
+            signal.setitimer(signal.ITIMER_REAL, 0)
+
+
+def _replay(fn, values):
     try:
         fn(Replayer(dict(values)))
     except Violation as v:
@@ -712,8 +744,26 @@ def explore(fn, *, prefix=None, cut_depth=None, budget_s=None, max_violation_key
         ST = st
         X = Explorer(st)
         counted = True
+        _alarm = False
+        try:
+            import signal
+            import threading
+
+            if threading.current_thread() is threading.main_thread():
+                signal.signal(signal.SIGALRM, _on_alarm)
+                signal.setitimer(signal.ITIMER_REAL, PATH_TIMEOUT_S)
+                _alarm = True
+        except Exception:  # noqa
+            _alarm = False
         try:
             fn(X)
+        except _PathTimeout:
+            rec = {"key": "hang:path-timeout", "msg": f"one path ran longer than {PATH_TIMEOUT_S} s of wall-clock time: the code under test did not return on this input",
+                   "values": _model_values(st), "witness": {}}
+            if rec["key"] not in {x["key"] for x in res.violations}:
+                res.violations.append(rec)
+            if stop_on is not None and stop_on(rec):
+                stop = True
         except Violation as v:
             vals = _model_values(st)
             rec = {"key": v.key, "msg": v.msg, "values": vals, "witness": _jsonable(v.witness)}
@@ -752,6 +802,11 @@ def explore(fn, *, prefix=None, cut_depth=None, budget_s=None, max_violation_key
                 stop = True
         finally:
             ST = None
+            if _alarm:
+                try:
+                    signal.setitimer(signal.ITIMER_REAL, 0)
+                except Exception:  # noqa
+                    pass
         res.queries += st.queries
         res.solver_s += st.solver_s
         if counted:
